@@ -486,7 +486,13 @@ func runRange(c Check, w *worker, out *outFile) {
 				rf, vf = reproduce(min)
 			}
 			if vf == nil {
-				Fail("run %d: minimised draws do not reproduce %s (non-deterministic Exec)", i, v.Class)
+				// The violation was observed once and cannot be reproduced
+				// from its draws in this process: it is not reported as a
+				// violation (no replay file can be honoured); the driver
+				// turns it into exit 2 unless confirmed violations exist.
+				out.json("UNREPRODUCED", map[string]any{"index": i, "class": v.Class, "detail": firstLines(v.Detail, 6)})
+				out.line("END %d violation %s", i, r.LogHash())
+				continue
 			}
 			matched = matchKnown(c, w, known, seed, i, min, vf)
 		}
